@@ -103,6 +103,9 @@ func init() {
 				cases = append(cases, Case{ID: "parse valid " + strings.ReplaceAll(t, "\n", "\\n"), Pkg: "internal/parser", Fn: "ZZC14ParseText", Args: []string{t, "1"}, Tag: "corpus-parse (native parser, by-product)"})
 			}
 			invalid := []string{"send", "send [USD 1] (", "vars {", "send [USD 1] ( source = @a destination = )", "} } }", "send [USD 1] ( source = @a destination = @b ) )", "set_tx_meta(", "vars { number }", "@", "$", "[USD", "send [USD *] ( source = destination = @b )", "é", "send [USD 1] ( source = @a\ndestination = @b", "\"unterminated"}
+			// non-ASCII text on the line where the input ends too early; input ending too early right after a newline
+			invalid = append(invalid, "set_tx_meta(\"clé\", \"é\"", "vars {\n  \"déjà vu\"\n}\nsend [USD 1] (\n source = @a\n destination = @b\n)", "send [USD 1] (\n  source = @a\n  destination = @b\n", "save [USD 1] from\n", "vars {\n  account $a\n",
+				"set_tx_meta(\"日本\", \n", "send [USD 1] (\r\n  source = @é\r\n")
 			v0 := validTemplates[0]
 			invalid = append(invalid, ")"+v0, "#"+v0, "é "+v0, "=\n", ")", "#", v0+" )", v0+"\n#", "\n)"+v0, "]"+v0, "1"+v0)
 			for _, t := range invalid {
